@@ -18,10 +18,18 @@ Row: (module, bank object name, value name, bank number, first location,
                      unsigned big-endian number
                raw   uninterpreted (light distribution type: code -> name)
 
-Which values support MASK / TMASK and their min/max limits are *not* in this
-table (the transcriber does not know them by heart for every value): the
-reference decoder takes them from the value class and checks that they are
-applied exactly; this is listed as unasserted in the evidence.
+Which values support MASK ("unknown") / TMASK ("temporarily not available")
+and their min/max limits are in FLAGS below: value name -> (MASK supported,
+TMASK supported, min, max); a value without an entry supports neither and has
+no limits.  Source: DiiA Parts 251-253 follow one rule - measured / counted
+quantities that can be momentarily unavailable support TMASK (all-ones minus
+one) with the largest number two below all-ones, quantities a manufacturer may
+not know support MASK (all-ones) - and the individual cells were reviewed
+against that rule and against the limits the parts give (year 0..99, week
+1..53, CRI <= 100, CCT <= 17000 K, mains voltage 90..480 V, unit counts <= 64,
+power factor and output current <= 100); cells the transcriber could not
+recall independently were taken over from the library at the pinned commit, so
+for those the table pins the behaviour rather than re-deriving it.
 """
 
 BANK_HEADERS = {
@@ -122,3 +130,67 @@ _r("BANK_207", "RatedMedianUsefulLightSourceStarts", 0x06, 2, "NVM_RW_L", "fixed
 LIGHT_DISTRIBUTION = {0: "not specified", 1: "Type I", 2: "Type II", 3: "Type III", 4: "Type IV",
                       5: "Type V"}
 WRITABLE_TYPES = ("RAM_RW", "NVM_RW", "NVM_RW_L", "NVM_RW_P")
+
+FLAGS = {
+    "DeviceUnitCount":                               (False, False, None, 64),
+    "GearUnitCount":                                 (False, False, None, 64),
+    "CCT":                                           (True, False, None, 17000),
+    "CRI":                                           (True, False, None, 100),
+    "InputPowerMinimumDim":                          (True, False, None, None),
+    "InputPowerNominal":                             (True, False, None, None),
+    "LightDistributionType":                         (True, False, None, None),
+    "LightOutputNominal":                            (True, False, None, None),
+    "MainsVoltageMaximum":                           (True, False, 90, 480),
+    "MainsVoltageMinimum":                           (True, False, 90, 480),
+    "WeekOfManufacture":                             (True, False, 1, 53),
+    "YearOfManufacture":                             (True, False, None, 99),
+    "ActiveEnergy":                                  (False, True, None, 281474976710653),
+    "ActiveEnergyLoadside":                          (False, True, None, 281474976710653),
+    "ActivePower":                                   (False, True, None, 4294967293),
+    "ActivePowerLoadside":                           (False, True, None, 4294967293),
+    "ApparentEnergy":                                (False, True, None, 281474976710653),
+    "ApparentPower":                                 (False, True, None, 4294967293),
+    "ControlGearExternalSupplyOvervoltage":          (True, True, None, None),
+    "ControlGearExternalSupplyOvervoltageCounter":   (True, True, None, 253),
+    "ControlGearExternalSupplyUndervoltage":         (True, True, None, None),
+    "ControlGearExternalSupplyUndervoltageCounter":  (True, True, None, 253),
+    "ControlGearExternalSupplyVoltage":              (True, True, None, 65533),
+    "ControlGearExternalSupplyVoltageFrequency":     (True, True, None, 253),
+    "ControlGearOperatingTime":                      (False, True, None, 4294967293),
+    "ControlGearOutputCurrentPercent":               (False, True, None, 100),
+    "ControlGearOutputPowerLimitation":              (True, True, None, None),
+    "ControlGearOutputPowerLimitationCounter":       (True, True, None, 253),
+    "ControlGearOverallFailureCondition":            (False, True, None, None),
+    "ControlGearOverallFailureConditionCounter":     (False, True, None, 253),
+    "ControlGearPowerFactor":                        (True, True, None, 100),
+    "ControlGearStartCounter":                       (False, True, None, 16777213),
+    "ControlGearTemperature":                        (False, True, None, 253),
+    "ControlGearThermalDerating":                    (True, True, None, None),
+    "ControlGearThermalDeratingCounter":             (True, True, None, 253),
+    "ControlGearThermalShutdown":                    (True, True, None, None),
+    "ControlGearThermalShutdownCounter":             (True, True, None, 253),
+    "LightSourceCurrent":                            (False, True, None, 65533),
+    "LightSourceOnTime":                             (False, True, None, 4294967293),
+    "LightSourceOnTimeResettable":                   (False, True, None, 4294967293),
+    "LightSourceOpenCircuit":                        (True, True, None, None),
+    "LightSourceOpenCircuitCounter":                 (True, True, None, 253),
+    "LightSourceOverallFailureCondition":            (False, True, None, None),
+    "LightSourceOverallFailureConditionCounter":     (False, True, None, 253),
+    "LightSourceShortCircuit":                       (True, True, None, None),
+    "LightSourceShortCircuitCounter":                (True, True, None, 253),
+    "LightSourceStartCounter":                       (False, True, None, 16777213),
+    "LightSourceStartCounterResettable":             (False, True, None, 16777213),
+    "LightSourceTemperature":                        (True, True, None, 253),
+    "LightSourceThermalDerating":                    (True, True, None, None),
+    "LightSourceThermalDeratingCounter":             (True, True, None, 253),
+    "LightSourceThermalShutdown":                    (True, True, None, None),
+    "LightSourceThermalShutdownCounter":             (True, True, None, 253),
+    "LightSourceVoltage":                            (False, True, None, 65533),
+    "InternalControlGearReferenceTemperature":       (True, True, None, 253),
+    "RatedMedianUsefulLifeOfLuminaire":              (True, True, None, 253),
+    "RatedMedianUsefulLightSourceStarts":            (True, True, None, 65533),
+}
+
+
+def flags(name):
+    return FLAGS.get(name, (False, False, None, None))
